@@ -108,9 +108,12 @@ class PathEval:
             self._block(s.body, aliases, trace + [("loop", s)], stored, nxt, nxt)
             return
         if isinstance(s, ast.Try):
-            self._block(s.body, aliases, trace, stored, nxt, lk)
+            # body, then the else clause when the body completes; a handler instead when it does not; the finally clause in both cases
+            fin = (lambda a, t, st: self._block(s.finalbody, a, t, st, nxt, lk)) if s.finalbody else nxt
+            after_body = (lambda a, t, st: self._block(s.orelse, a, t, st, fin, lk)) if s.orelse else fin
+            self._block(s.body, aliases, trace, stored, after_body, lk)
             for h in s.handlers:
-                self._block(h.body, aliases, trace + [("handler", h)], stored, nxt, lk)
+                self._block(h.body, aliases, trace + [("handler", h)], stored, fin, lk)
             return
         if isinstance(s, ast.With):
             self._block(s.body, aliases, trace, stored, nxt, lk)
@@ -274,9 +277,15 @@ def _stmt_outcomes(s, decide_subject, aliases):
                 res.add((k, t))
         return res
     if isinstance(s, ast.Try):
-        res = set(option_outcomes(s.body, decide_subject, aliases))
+        res = set(option_outcomes(list(s.body) + list(s.orelse), decide_subject, aliases))
         for h in s.handlers:
             res |= option_outcomes(h.body, decide_subject, aliases)
+        if s.finalbody:
+            out = set()
+            for (k0, t0) in res:
+                for (k1, t1) in option_outcomes(s.finalbody, decide_subject, aliases):
+                    out.add((k0 if k1 == "next" else k1, t0 or t1))
+            res = out
         return res
     if isinstance(s, ast.With):
         return option_outcomes(s.body, decide_subject, aliases)
